@@ -100,6 +100,12 @@ def _alpha_small(base):
     return mv
 
 
+def _alpha_replenish(base):
+    """The peer retires E's IDs one after the other (each replacement is announced in a packet of its own)
+    and packets of E are lost - the oldest or the newest outstanding one."""
+    return [("retire", 0), ("retire", 1), ("retire", 2), ("lose_old",), ("lose",), ("ack",), ("timer",)]
+
+
 def _alpha_rotate(base):
     """E rotates through the peer's IDs while the peer's NEW_CONNECTION_ID frames are repeated
     (retransmissions of frames E has long processed - including for IDs E retired meanwhile)."""
@@ -118,7 +124,8 @@ def moves_of(alpha, base):
     return ALPHABETS[split_alpha(alpha)[0]](base)
 
 
-ALPHABETS = {"full": _alpha_full, "medium": _alpha_medium, "small": _alpha_small, "rotate": _alpha_rotate}
+ALPHABETS = {"full": _alpha_full, "medium": _alpha_medium, "small": _alpha_small, "rotate": _alpha_rotate,
+             "replenish": _alpha_replenish}
 
 
 # ===================================================================== world
@@ -395,11 +402,12 @@ class World:
                 return False  # only the idle timer is armed
             self._do(lambda: bot.timer())
             return True
-        if k == "lose":
+        if k in ("lose", "lose_old"):
             out = self.outstanding()
-            if not out:
+            if not out or (k == "lose_old" and len(out) < 2):
                 return False
-            victim = max(r.pn for r in out)
+            # lose = the newest, lose_old = the OLDEST outstanding ack-eliciting packet (a later one got through)
+            victim = max(r.pn for r in out) if k == "lose" else min(r.pn for r in out)
             self.never_ack.add(victim)
             self.ack_all()
             sp = bot.E.conn._loss.spaces[-1]
@@ -923,6 +931,7 @@ PLAN = {
         ("client", "full", "small@4", 3), ("server", "full", "small@7", 2),
         ("server", "fresh", "rotate", 10), ("client", "fresh", "rotate", 10),
         ("server", "full", "rotate", 6), ("client", "full", "rotate", 6),
+        ("server", "full", "replenish", 4), ("client", "full", "replenish", 4),
     ],
     "thorough": [
         ("server", "fresh", "full", 3), ("client", "fresh", "full", 2),
@@ -934,6 +943,7 @@ PLAN = {
         ("server", "fresh", "medium@2", 3), ("client", "fresh", "medium@2", 3),
         ("server", "full", "medium@3", 3), ("client", "full", "medium@4", 3),
         ("server", "full", "small@7", 4), ("client", "fresh", "small@7", 4),
+        ("server", "full", "replenish", 6), ("client", "full", "replenish", 6), ("client", "fresh", "replenish", 5),
         ("server", "fresh", "rotate", 14), ("client", "fresh", "rotate", 14),
         ("server", "full", "rotate", 10), ("client", "full", "rotate", 10),
     ],
